@@ -11,6 +11,14 @@ Lemma zb_space c : (zb c =? 32) = is_space c.
 Proof. destruct c; reflexivity. Qed.
 Lemma zb_nul c : (zb c =? 0) = Byte.eqb c x00.
 Proof. destruct c; reflexivity. Qed.
+Lemma rdb_zb_nul sgn c : (CApi.rdb sgn (zb c) =? 0) = Byte.eqb c x00.
+Proof. destruct sgn; destruct c; reflexivity. Qed.
+Lemma rdb_zb_space sgn c : (CApi.rdb sgn (zb c) =? 32) = is_space c.
+Proof. destruct sgn; destruct c; reflexivity. Qed.
+Lemma rdb_0 sgn : CApi.rdb sgn 0 = 0.
+Proof. destruct sgn; reflexivity. Qed.
+Lemma rdb_32 sgn : CApi.rdb sgn 32 = 32.
+Proof. destruct sgn; reflexivity. Qed.
 Lemma is_space_eq c : is_space c = true -> c = x20.
 Proof. destruct c; cbn; intros H; try discriminate; reflexivity. Qed.
 
@@ -76,8 +84,8 @@ Lemma nth_end {A} (a : list A) d : nth (length a) a d = d.
 Proof. apply nth_overflow. lia. Qed.
 
 (* ---- the inner loop: skip the bytes of one token ---- *)
-Lemma inner_gen (c : Z -> bool) (b : Z -> option Z) Bf :
-  (forall p, c p = negb (@nth Z (Z.to_nat p) Bf 0 =? 0) && negb (@nth Z (Z.to_nat p) Bf 0 =? 32)) ->
+Lemma inner_gen sgn (c : Z -> bool) (b : Z -> option Z) Bf :
+  (forall p, c p = negb (CApi.rdb sgn (@nth Z (Z.to_nat p) Bf 0) =? 0) && negb (CApi.rdb sgn (@nth Z (Z.to_nat p) Bf 0) =? 32)) ->
   (forall p, b p = Some (p + 1)) ->
   forall t pre rest f, Bf = pre ++ zs t ++ rest -> no_nul t -> Forall (fun c => is_space c = false) t ->
     (rest = [] \/ exists x r, rest = x :: r /\ (x = 0 \/ x = 32)) -> (length t + 1 <= f)%nat ->
@@ -87,11 +95,11 @@ Proof.
   - destruct f as [|f]; [cbn in Hf; lia|]. cbn [CFuns.whileF]. rewrite Hc, Nat2Z.id, HB. cbn [zs map app].
     rewrite Nat.add_0_r.
     destruct Hr as [Hr|(x&r&Hr&Hx)]; subst rest.
-    + rewrite app_nil_r, nth_end. reflexivity.
-    + rewrite nth_mid. destruct Hx; subst x; reflexivity.
+    + rewrite app_nil_r, nth_end, rdb_0. reflexivity.
+    + rewrite nth_mid. destruct Hx; subst x; rewrite ?rdb_0, ?rdb_32; reflexivity.
   - destruct f as [|f]; [cbn in Hf; lia|]. cbn [CFuns.whileF]. rewrite Hc, Nat2Z.id, HB. cbn [zs map app].
     rewrite nth_mid. apply no_nul_cons in Hn. destruct Hn as [Hc0 Hn]. apply Forall_cons_iff in Hs. destruct Hs as [Hs0 Hs].
-    rewrite zb_nul, zb_space, Hc0, Hs0. cbn [negb andb]. rewrite Hb.
+    rewrite rdb_zb_nul, rdb_zb_space, Hc0, Hs0. cbn [negb andb]. rewrite Hb.
     replace (Z.of_nat (length pre) + 1) with (Z.of_nat (length (pre ++ [zb ch]))) by (rewrite app_length; cbn [length]; lia).
     rewrite (IH (pre ++ [zb ch]) rest f); try assumption.
     + f_equal. rewrite app_length. cbn [length]. lia.
@@ -155,9 +163,9 @@ Section Split.
   Lemma head_tail d : @nth Z 0 tail d = 0 \/ tail = [].
   Proof. destruct Htail as [->|[r ->]]; [right; reflexivity | left; reflexivity]. Qed.
 
-  Lemma nth_tail_zero (a : list Z) : (@nth Z (length a) (a ++ tail) 0 =? 0) = true.
+  Lemma nth_tail_zero sgn (a : list Z) : (CApi.rdb sgn (@nth Z (length a) (a ++ tail) 0) =? 0) = true.
   Proof.
-    destruct Htail as [->|[r ->]]; [rewrite app_nil_r, nth_end | rewrite nth_mid]; reflexivity.
+    destruct Htail as [->|[r ->]]; [rewrite app_nil_r, nth_end | rewrite nth_mid]; rewrite rdb_0; reflexivity.
   Qed.
 End Split.
 
@@ -170,16 +178,16 @@ Proof.
   destruct (Nat.eqb_spec (S w) 16) as [E|E]; [apply Z.eqb_eq|apply Z.eqb_neq]; lia.
 Qed.
 
-Lemma head_zs_nonzero c r X : no_nul (c :: r) -> (@nth Z 0 (zs (c :: r) ++ X) 0 =? 0) = false.
-Proof. intros H. apply no_nul_cons in H. cbn [zs map app nth]. rewrite zb_nul. apply H. Qed.
+Lemma head_zs_nonzero sgn c r X : no_nul (c :: r) -> (CApi.rdb sgn (@nth Z 0 (zs (c :: r) ++ X) 0) =? 0) = false.
+Proof. intros H. apply no_nul_cons in H. cbn [zs map app nth]. rewrite rdb_zb_nul. apply H. Qed.
 
 Section Loop.
-  Variables (fuel : nat) (tail : list Z).
+  Variables (fuel : nat) (sgn : bool) (tail : list Z).
   Hypothesis Htail : tail = [] \/ exists r, tail = 0 :: r.
 
   Theorem tie_str_split content words0 : no_nul content -> length words0 = 16%nat -> (length content + 2 <= fuel)%nat ->
     exists Bf' words',
-      CApi.str_split fuel (zs content ++ tail) words0 = Some (Bf', words', Z.of_nat (fst (str_split content))) /\
+      CApi.str_split fuel sgn (zs content ++ tail) words0 = Some (Bf', words', Z.of_nat (fst (str_split content))) /\
       length words' = 16%nat /\ Q Bf' words' (snd (str_split content)).
   Proof.
     intros Hnn Hw0 Hfuel. unfold CApi.str_split. cbv zeta.
@@ -191,13 +199,13 @@ Section Loop.
       Some (Nat.eqb (S w) 16, Z.of_nat (length pre + length t), pre ++ zs t ++ tail, Z.of_nat (S w),
             Z.of_nat (length pre + length t), CFuns.upd words w (Z.of_nat (length pre)))).
     { intros pre t w words Hn Hs Hf. unfold B. cbv beta iota zeta.
-      rewrite (inner_gen _ _ (pre ++ zs t ++ tail) (fun p => eq_refl) (fun p => eq_refl) t pre tail fuel eq_refl Hn Hs)
+      rewrite (inner_gen sgn _ _ (pre ++ zs t ++ tail) (fun p => eq_refl) (fun p => eq_refl) t pre tail fuel eq_refl Hn Hs)
         by (first [exact Hf | destruct Htail as [->|[r ->]]; [left; reflexivity | right; exists 0, r; split; [reflexivity|left; reflexivity]]]).
       rewrite !Nat2Z.id.
       replace (pre ++ zs t ++ tail) with ((pre ++ zs t) ++ tail) by (rewrite app_assoc; reflexivity).
       replace (length pre + length t)%nat with (length (pre ++ zs t)) by (rewrite app_length; unfold zs; rewrite map_length; reflexivity).
-      rewrite (nth_tail_zero tail Htail). cbn [negb]. cbv beta iota zeta.
-      rewrite ?Nat2Z.id, ?(nth_tail_zero tail Htail). cbn [negb]. rewrite succ_eqb16.
+      rewrite (nth_tail_zero tail Htail sgn). cbn [negb]. cbv beta iota zeta.
+      rewrite ?Nat2Z.id, ?(nth_tail_zero tail Htail sgn). cbn [negb]. rewrite succ_eqb16.
       replace (Z.of_nat w + 1) with (Z.of_nat (S w)) by lia.
       destruct (Nat.eqb (S w) 16); reflexivity. }
     (* one iteration, token ended by a separator *)
@@ -208,12 +216,12 @@ Section Loop.
             Z.of_nat (if Nat.eqb (S w) 16 then match r' with [] => 16 | _ => 17 end else S w)%nat,
             Z.of_nat (length (pre ++ zs t ++ [0])), CFuns.upd words w (Z.of_nat (length pre)))).
     { intros pre t r' w words Hn Hs Hr Hf. unfold B. cbv beta iota zeta.
-      rewrite (inner_gen _ _ (pre ++ zs t ++ zs (x20 :: r') ++ tail) (fun p => eq_refl) (fun p => eq_refl) t pre (zs (x20 :: r') ++ tail) fuel eq_refl Hn Hs)
+      rewrite (inner_gen sgn _ _ (pre ++ zs t ++ zs (x20 :: r') ++ tail) (fun p => eq_refl) (fun p => eq_refl) t pre (zs (x20 :: r') ++ tail) fuel eq_refl Hn Hs)
         by (first [exact Hf | right; exists 32, (zs r' ++ tail); split; [reflexivity|right; reflexivity]]).
       rewrite !Nat2Z.id.
       replace (pre ++ zs t ++ zs (x20 :: r') ++ tail) with ((pre ++ zs t) ++ 32 :: zs r' ++ tail) by (rewrite <- app_assoc; reflexivity).
       replace (length pre + length t)%nat with (length (pre ++ zs t)) by (rewrite app_length; unfold zs; rewrite map_length; reflexivity).
-      rewrite nth_mid. change (32 =? 0) with false. cbn [negb]. cbv beta iota zeta. rewrite upd_mid.
+      rewrite nth_mid, rdb_32. change (32 =? 0) with false. cbn [negb]. cbv beta iota zeta. rewrite upd_mid.
       replace (Z.of_nat (length (pre ++ zs t)) + 1) with (Z.of_nat (length (pre ++ zs t ++ [0])))
         by (rewrite !app_length; cbn [length]; lia).
       replace ((pre ++ zs t) ++ 0 :: zs r' ++ tail) with ((pre ++ zs t ++ [0]) ++ zs r' ++ tail)
@@ -222,9 +230,9 @@ Section Loop.
       destruct (Nat.eqb (S w) 16) eqn:E16; [|reflexivity].
       rewrite app_nth2, Nat.sub_diag by lia. apply Nat.eqb_eq in E16. rewrite E16.
       destruct r' as [|c r'].
-      - cbn [zs map app]. replace (@nth Z 0 tail 0 =? 0) with true by (destruct Htail as [->|[r ->]]; reflexivity). reflexivity.
-      - rewrite (head_zs_nonzero c r' tail Hr). reflexivity. }
-    assert (CT : forall brk p Bf w wd ws, C (brk, p, Bf, w, wd, ws) = negb brk && negb (@nth Z (Z.to_nat p) Bf 0 =? 0)) by reflexivity.
+      - cbn [zs map app]. replace (CApi.rdb sgn (@nth Z 0 tail 0) =? 0) with true by (destruct Htail as [->|[r ->]]; cbn [nth]; rewrite rdb_0; reflexivity). reflexivity.
+      - rewrite (head_zs_nonzero sgn c r' tail Hr). reflexivity. }
+    assert (CT : forall brk p Bf w wd ws, C (brk, p, Bf, w, wd, ws) = negb brk && negb (CApi.rdb sgn (@nth Z (Z.to_nat p) Bf 0) =? 0)) by reflexivity.
     assert (REV : forall (t : bytes) toks, rev (rev (rev t) :: rev toks) = toks ++ [t]).
     { intros t toks. cbn [rev]. rewrite !rev_involutive. reflexivity. }
     assert (IND : forall n s, (length s <= n)%nat -> forall pre w words toks f,
@@ -237,8 +245,8 @@ Section Loop.
     { induction n as [|n IH]; intros s Hls pre w words toks f Hne Hn Hw Hw16 Hlw HP Hf Hfl.
       { destruct s; [congruence | cbn in Hls; lia]. }
       destruct f as [|f]; [lia|]. rewrite whileF_S, CT, Nat2Z.id. cbn [negb andb].
-      assert (H0 : (@nth Z (length pre) (pre ++ zs s ++ tail) 0 =? 0) = false).
-      { destruct s as [|c s']; [congruence|]. rewrite app_nth2, Nat.sub_diag by lia. apply head_zs_nonzero, Hn. }
+      assert (H0 : (CApi.rdb sgn (@nth Z (length pre) (pre ++ zs s ++ tail) 0) =? 0) = false).
+      { destruct s as [|c s']; [congruence|]. rewrite app_nth2, Nat.sub_diag by lia. apply (head_zs_nonzero sgn), Hn. }
       rewrite H0. cbn [negb].
       pose proof (take_tok_app s) as Es. pose proof (take_tok_nospace s) as Hs. pose proof (take_tok_rest s) as Hr.
       rewrite split_go_tok, app_nil_r.
@@ -252,7 +260,7 @@ Section Loop.
         destruct f as [|f]; [lia|]. rewrite whileF_S, CT, Nat2Z.id.
         replace (pre ++ zs t ++ tail) with ((pre ++ zs t) ++ tail) by (rewrite app_assoc; reflexivity).
         replace (length pre + length t)%nat with (length (pre ++ zs t)) by (rewrite app_length; unfold zs; rewrite map_length; reflexivity).
-        rewrite (nth_tail_zero tail Htail). rewrite andb_false_r.
+        rewrite (nth_tail_zero tail Htail sgn). rewrite andb_false_r.
         cbn [split_go fst snd]. rewrite REV.
         do 5 eexists. split; [reflexivity|]. split; [rewrite upd_length; exact Hlw|].
         subst w. apply (Q_last tail Htail _ pre words toks t HP); [lia | exact Hnt | rewrite app_assoc; reflexivity].
@@ -269,9 +277,9 @@ Section Loop.
         + cbn [negb andb fst snd]. do 5 eexists. split; [reflexivity|]. split; [rewrite upd_length; exact Hlw|].
           apply P_Q, HP'.
         + cbn [negb andb]. destruct r' as [|c r'].
-          * cbn [zs map app]. rewrite (nth_tail_zero tail Htail). cbn [negb fst snd].
+          * cbn [zs map app]. rewrite (nth_tail_zero tail Htail sgn). cbn [negb fst snd].
             do 5 eexists. split; [reflexivity|]. split; [rewrite upd_length; exact Hlw|]. apply P_Q, HP'.
-          * rewrite app_nth2, Nat.sub_diag by lia. rewrite (head_zs_nonzero c r' tail Hnr'). cbn [negb].
+          * rewrite app_nth2, Nat.sub_diag by lia. rewrite (head_zs_nonzero sgn c r' tail Hnr'). cbn [negb].
             apply Nat.eqb_neq in E16.
             assert (Hlen : (length (c :: r') <= n)%nat).
             { rewrite app_length in Hls. cbn [length] in Hls |- *. lia. }
@@ -280,12 +288,12 @@ Section Loop.
               [discriminate | exact Hnr' | rewrite app_length; cbn [length]; lia | lia | rewrite upd_length; exact Hlw
               | exact HP' | lia | rewrite app_length in Hfl; cbn [length] in Hfl |- *; lia |].
             rewrite whileF_S, CT, Nat2Z.id in E. cbn [negb andb] in E.
-            rewrite app_nth2, Nat.sub_diag in E by lia. rewrite (head_zs_nonzero c r' tail Hnr') in E. cbn [negb] in E.
+            rewrite app_nth2, Nat.sub_diag in E by lia. rewrite (head_zs_nonzero sgn c r' tail Hnr') in E. cbn [negb] in E.
             rewrite rev_app_distr in E, HQ. cbn [rev app] in E, HQ. rewrite (rev_involutive t).
             exists brk, pos, Bf', word, words'. split; [exact E|]. split; [exact L | exact HQ]. }
     destruct content as [|c0 content'] eqn:Ec.
     - destruct fuel as [|f0]; [cbn in Hfuel; lia|]. rewrite whileF_S, CT. cbn [negb andb Z.to_nat zs map app].
-      replace (@nth Z 0 tail 0 =? 0) with true by (destruct Htail as [->|[r ->]]; reflexivity).
+      replace (CApi.rdb sgn (@nth Z 0 tail 0) =? 0) with true by (destruct Htail as [->|[r ->]]; cbn [nth]; rewrite rdb_0; reflexivity).
       cbn [negb]. do 2 eexists. split; [reflexivity|]. split; [exact Hw0|]. intros i Hi. cbn in Hi. lia.
     - rewrite <- Ec in *. assert (Hne : content <> []) by (rewrite Ec; discriminate).
       destruct (IND (length content) content (le_n _) [] 0%nat words0 [] fuel Hne Hnn eq_refl) as (brk&pos&Bf'&word&words'&E&L&HQ);
